@@ -9,14 +9,46 @@
 //! Encodings: a checked decoder either rejects or returns a point of the curve
 //! (of the subgroup where promised) whose encoding is exactly the input.
 //!
-//! SENSITIVITY (mutants applied in a scratch worktree, see final report):
-//!   filled in at the end of development — see block at the bottom of this comment.
+//! Layout: `vp_alg::curvemodel` (model-side helpers), `vp_alg::c11core`
+//! (case types, strategies, family-generic checks, the universal decoder
+//! oracle), this file (Weierstrass families with the CurveExt/CurveAffine
+//! interface) and `../c11_families.rs` (Jubjub, secp256k1, Curve25519,
+//! hash-to-curve), included textually.
 //!
-//! MUTANTS-TRIED: see `MUTANTS` constant below.
+//! Regression sub-checks (must-hold oracles) for the defects this check found
+//! and that were repaired in /repo: `.ct_eq` (F3), `.jacobian` (F4),
+//! `.uncompressed_flagged`, `.encoding_read_raw`,
+//! `bn256::G2.decode_noncanonical_coefficient`, `secp256k1.identity_accessors`
+//! (F23), `secp256k1.sec1_tags`, `secp256k1.batch_normalize_computed_identity`,
+//! `*.batch_normalize_edge`, `curve25519.noncanonical` (F25).
+//! Known finding kept unrepaired: `bls12_381::G{1,2}.scalar_outside_subgroup`
+//! (signatures `G1Projective:mul:proj*scalar:outside-subgroup`,
+//! `G2Projective:mul:proj*scalar:outside-subgroup`): blst's GLV/GLS scalar
+//! multiplication is only correct on the prime-order subgroup; the `.scalar`
+//! sub-checks exclude (point outside the subgroup x scalar >= 2^64) and count
+//! the exclusions in a class label.
+//! Uncompressed / raw decoders promise on-curve + canonical only (property C16);
+//! subgroup membership is required of the compressed decoders only.
+//!
+//! SENSITIVITY (2026-10-04; mutants applied to a scratch worktree of /repo with a
+//! copy of the harness pointed at it, never to /repo; quick tier, VERIF_SEED=1;
+//! "caught" = a violation signature that the unchanged tree does not produce):
+//!   M1 g1.rs from_compressed without `& p.is_torsion_free()`
+//!        -> caught: G1Affine:from_bytes:non-subgroup, G1Affine:serde:non-subgroup
+//!   M2 jubjub/curve.rs ConstantTimeEq for JubjubExtended compares only u*z'
+//!        -> caught: JubjubExtended:eq (jubjub.ops)
+//!   M3 g1.rs add_mixed through blst_p1_add_affine (not "or_double")
+//!        -> caught: G1Projective:add:proj+affine, G1Projective:mul:other-representation
+//!   M4 jubjub/curve.rs from_bytes_inner without the ZIP-216 rejection
+//!        -> caught: JubjubAffine:from_bytes:noncanonical (jubjub.noncanonical, jubjub.encoding)
+//!   M5 derive/curve.rs mixed addition without the `rhs.is_identity()` select
+//!        -> caught: bn256::G1:add:proj+affine, bn256::G2:add:proj+affine (+ &affine+&proj)
+//!   M6 curve25519/affine.rs from_edwards without the sign correction of x
+//!        -> caught: Curve25519:neg, Curve25519:sub:proj-proj, Curve25519:mul:proj*scalar,
+//!           Curve25519Affine:from_bytes:roundtrip
 
 use std::sync::OnceLock;
 
-use ff::Field;
 use group::{
     cofactor::CofactorGroup,
     prime::PrimeCurveAffine,
@@ -30,11 +62,6 @@ use serde::{Deserialize, Serialize};
 use subtle::{Choice, ConditionallySelectable, ConstantTimeEq};
 use vp_alg::{achk, c11core::*, curvemodel::*, gchk, *};
 use vpcore::{ensure, CaseResult, Failure, Prop, SplitMix, Verdict};
-
-/// Mutants tried in a scratch worktree of /repo (never in /repo itself) and the
-/// signature with which each was caught. Filled in after the sensitivity runs.
-#[allow(dead_code)]
-const MUTANTS: &str = "see final comment block";
 
 // ---------------------------------------------------------------------------
 // Codec helpers
@@ -616,7 +643,7 @@ fn weier_subs<F: Fam>(
     let n = |q: u32, t: u32| p.tier.pick(q, t) / scale;
     p.sub(&format!("{}.ops", F::NAME), OPS_RULE, n(8000, 320_000), 16, || op_strategy(F::COFACTOR), |c| {
         let ctx = context::<F>(c)?;
-        ops_generic::<F>(&ctx)?;
+        ops_generic::<F>(&ctx, true)?;
         extras(&ctx, c.aux)?;
         if !bls {
             ct_generic::<F>(&ctx)?;
@@ -633,6 +660,13 @@ fn weier_subs<F: Fam>(
     }
     let scalar_case = |c: &OpCase| -> CaseResult {
         let ctx = context::<F>(c)?;
+        // KNOWN FINDING (kept in .scalar_outside_subgroup): blst multiplies through the
+        // GLV (G1) / GLS (G2) endomorphisms, which act as a scalar only on the prime-order
+        // subgroup; the decomposition is trivial (and the result right) for small scalars.
+        // Excluded here: point outside the subgroup x scalar >= 2^64.
+        if bls && ctx.kb.bits() > 64 && !in_subgroup::<F>(&ctx.mp) {
+            return Ok(Verdict::trivial("excluded: point outside subgroup x scalar >= 2^64 (known finding, see .scalar_outside_subgroup)").with(k_class(&c.k)));
+        }
         let kp = scalar_generic::<F>(&ctx)?;
         scalar_extras(&ctx, &kp)?;
         more_scalar(&ctx)?;
@@ -640,10 +674,7 @@ fn weier_subs<F: Fam>(
         v.nontrivial = !matches!(c.k, KSpec::Rand(_)) || ctx.exceptional;
         Ok(v.with(k_class(&c.k)))
     };
-    // blst multiplies through the GLV/GLS endomorphisms, which act as a scalar
-    // only on the prime-order subgroup: operands outside it get their own sub-check
-    let mode = if bls { 2 } else { F::COFACTOR as u8 };
-    p.sub(&format!("{}.scalar", F::NAME), SCALAR_RULE, n(400, 16_000), 16, || op_strategy_mode(mode), scalar_case);
+    p.sub(&format!("{}.scalar", F::NAME), SCALAR_RULE, n(400, 16_000), 16, || op_strategy(F::COFACTOR), scalar_case);
     if bls {
         p.sub_cfg(
             &format!("{}.scalar_outside_subgroup", F::NAME),
@@ -651,11 +682,18 @@ fn weier_subs<F: Fam>(
             n(160, 6_000),
             16,
             24,
-            || op_strategy_mode(3),
+            || op_strategy_mode(3).prop_map(|mut c| {
+                // scalars for which the endomorphism decomposition is non-trivial
+                if !matches!(c.k, KSpec::Rand(_) | KSpec::RMinusSmall(_) | KSpec::Pow2(_)) {
+                    c.k = KSpec::Rand(c.aux);
+                }
+                c
+            }).boxed(),
             |c| {
                 let ctx = context::<F>(c)?;
                 scalar_generic::<F>(&ctx).map_err(|mut f| {
-                    f.signature = format!("{}:outside-subgroup", f.signature);
+                    // one signature per type: whichever Mul form is compared first
+                    f.signature = format!("{}:mul:proj*scalar:outside-subgroup", F::GN);
                     f
                 })?;
                 let mut v = verdict(&ctx)?;
@@ -673,6 +711,65 @@ fn weier_subs<F: Fam>(
     p.enumerate(&format!("{}.batch_normalize_edge", F::NAME), BATCH_EDGE_RULE, vec![0u8], 1, true, |_| batch_edge::<F>());
 }
 
+#[derive(Clone, Debug, Serialize, Deserialize)]
+struct FlaggedCase {
+    p: PSpec,
+    /// true: compressed encoding followed by noise; false: valid uncompressed
+    /// encoding with the top three bits of byte 0 set to `flags`
+    compressed_prefix: bool,
+    flags: u8,
+    aux: u64,
+}
+
+/// Regression sub-check for the BLS12-381 uncompressed decoders: flag bits
+/// inside an uncompressed-size buffer (formerly accepted: blst's deserialize
+/// dispatches on the compression flag). Returns the codecs for the exploring
+/// sub-check (subgroup membership not required for uncompressed / raw formats).
+fn bls_uncompressed_subs<F: Fam>(p: &Prop, strict: Vec<Codec<F>>, compress: fn(&F::A) -> Vec<u8>) -> Vec<Codec<F>> {
+    let strict: Vec<Codec<F>> = strict
+        .iter()
+        .map(|c| {
+            let mut e = c.strict();
+            e.lenient_subgroup = true;
+            e
+        })
+        .collect();
+    let n = |q: u32, t: u32| p.tier.pick(q, t);
+    p.sub(
+        &format!("{}.uncompressed_flagged", F::NAME),
+        "uncompressed-size buffers that carry flag bits: (a) a valid compressed encoding followed by random bytes, (b) a valid uncompressed encoding with the top three bits of byte 0 set to 1..7; decoder accepts => re-encoding equals the input; every case non-trivial",
+        n(400, 16_000),
+        16,
+        || (pspec_mode(2), any::<bool>(), 1u8..8, any::<u64>()).prop_map(|(p, compressed_prefix, flags, aux)| FlaggedCase { p, compressed_prefix, flags, aux }).boxed(),
+        |c| {
+            let r = resolve::<F>(&c.p)?;
+            for cd in &strict {
+                let bytes = if c.compressed_prefix {
+                    let mut b = compress(&r.a);
+                    b.extend(SplitMix(c.aux).bytes(cd.len - b.len()));
+                    b
+                } else {
+                    let mut b = (cd.enc)(&r.a);
+                    b[0] = (b[0] & 0x1f) | (c.flags << 5);
+                    b
+                };
+                decode_oracle(cd, &bytes, if c.compressed_prefix { "compressed encoding + trailing bytes" } else { "uncompressed encoding with flag bits" }, Some((&r.m, true)))?;
+            }
+            Ok(Verdict::nontrivial(if c.compressed_prefix { "compressed prefix" } else { "flag bits set" }).with(format!("P:{}", r.class)))
+        },
+    );
+    strict
+        .iter()
+        .map(|c| {
+            // uncompressed / raw formats promise on-curve only (property C16); a decoder
+            // that also checks the subgroup (G2) is allowed, not required
+            let mut e = c.strict();
+            e.lenient_subgroup = true;
+            e
+        })
+        .collect()
+}
+
 fn main() {
     vpcore::main("C11", "exploration", (900, 10_800), |p| {
         p.assume("big-integer affine group laws of vp_alg::model (short Weierstrass over Z_p and Fp2, twisted Edwards) are the reference; num-bigint is correct");
@@ -684,49 +781,49 @@ fn main() {
         {
             type F = BlsG1;
             let codecs: Vec<Codec<F>> = vec![
-                Codec { name: "G1Affine:from_bytes", len: 48, big_endian: true, flag_bits: 3, slot: 48, enc: ge_enc::<G1Affine>, dec: ge_dec::<G1Affine>, dec_unchecked: Some(ge_dec_u::<G1Affine>), subgroup: true, tolerate_panic: false },
-                Codec { name: "G1Projective:from_bytes", len: 48, big_endian: true, flag_bits: 3, slot: 48, enc: |a| ge_enc(&G1Projective::from(*a)), dec: |b| ge_dec::<G1Projective>(b).map(|g| g.to_affine()), dec_unchecked: Some(|b| ge_dec_u::<G1Projective>(b).map(|g| g.to_affine())), subgroup: true, tolerate_panic: false },
+                Codec { name: "G1Affine:from_bytes", len: 48, big_endian: true, flag_bits: 3, slot: 48, enc: ge_enc::<G1Affine>, dec: ge_dec::<G1Affine>, dec_unchecked: Some(ge_dec_u::<G1Affine>), subgroup: true, tolerate_panic: false, exclude: None, lenient_subgroup: false },
+                Codec { name: "G1Projective:from_bytes", len: 48, big_endian: true, flag_bits: 3, slot: 48, enc: |a| ge_enc(&G1Projective::from(*a)), dec: |b| ge_dec::<G1Projective>(b).map(|g| g.to_affine()), dec_unchecked: Some(|b| ge_dec_u::<G1Projective>(b).map(|g| g.to_affine())), subgroup: true, tolerate_panic: false, exclude: None, lenient_subgroup: false },
             ];
             let codecs_u: Vec<Codec<F>> = vec![
-                Codec { name: "G1Affine:from_uncompressed", len: 96, big_endian: true, flag_bits: 3, slot: 48, enc: ue_enc::<G1Affine>, dec: ue_dec::<G1Affine>, dec_unchecked: Some(ue_dec_u::<G1Affine>), subgroup: true, tolerate_panic: false },
-                Codec { name: "G1Affine:from_raw_bytes", len: 96, big_endian: true, flag_bits: 3, slot: 48, enc: so_enc::<G1Affine>, dec: so_dec::<G1Affine>, dec_unchecked: Some(so_dec_u::<G1Affine>), subgroup: true, tolerate_panic: false },
-                Codec { name: "G1Affine:read_raw", len: 96, big_endian: true, flag_bits: 3, slot: 48, enc: so_write::<G1Affine>, dec: so_read::<G1Affine>, dec_unchecked: Some(so_read_u::<G1Affine>), subgroup: true, tolerate_panic: false },
+                Codec { name: "G1Affine:from_uncompressed", len: 96, big_endian: true, flag_bits: 3, slot: 48, enc: ue_enc::<G1Affine>, dec: ue_dec::<G1Affine>, dec_unchecked: Some(ue_dec_u::<G1Affine>), subgroup: true, tolerate_panic: false, exclude: None, lenient_subgroup: false },
+                Codec { name: "G1Affine:from_raw_bytes", len: 96, big_endian: true, flag_bits: 3, slot: 48, enc: so_enc::<G1Affine>, dec: so_dec::<G1Affine>, dec_unchecked: Some(so_dec_u::<G1Affine>), subgroup: true, tolerate_panic: false, exclude: None, lenient_subgroup: false },
+                Codec { name: "G1Affine:read_raw", len: 96, big_endian: true, flag_bits: 3, slot: 48, enc: so_write::<G1Affine>, dec: so_read::<G1Affine>, dec_unchecked: Some(so_read_u::<G1Affine>), subgroup: true, tolerate_panic: false, exclude: None, lenient_subgroup: false },
             ];
             let codecs = codecs.into_iter().chain([
-                Codec { name: "G1Affine:serde", len: 48, big_endian: true, flag_bits: 3, slot: 48, enc: json_enc::<G1Affine>, dec: json_dec::<G1Affine>, dec_unchecked: None, subgroup: true, tolerate_panic: false },
-                Codec { name: "G1Projective:serde", len: 48, big_endian: true, flag_bits: 3, slot: 48, enc: |a| json_enc(&G1Projective::from(*a)), dec: |b| json_dec::<G1Projective>(b).map(|g| g.to_affine()), dec_unchecked: None, subgroup: true, tolerate_panic: false },
+                Codec { name: "G1Affine:serde", len: 48, big_endian: true, flag_bits: 3, slot: 48, enc: json_enc::<G1Affine>, dec: json_dec::<G1Affine>, dec_unchecked: None, subgroup: true, tolerate_panic: false, exclude: None, lenient_subgroup: false },
+                Codec { name: "G1Projective:serde", len: 48, big_endian: true, flag_bits: 3, slot: 48, enc: |a| json_enc(&G1Projective::from(*a)), dec: |b| json_dec::<G1Projective>(b).map(|g| g.to_affine()), dec_unchecked: None, subgroup: true, tolerate_panic: false, exclude: None, lenient_subgroup: false },
             ]).collect();
-            weier_subs::<F>(p, true, 1, bls_g1::extras, bls_g1::scalar_extras, bls_g1_more, bls_g1::jacobian, bls_g1::constants, BigUint::from(4u32), codecs, "encoding_uncompressed", codecs_u);
+            weier_subs::<F>(p, true, 1, bls_g1::extras, bls_g1::scalar_extras, bls_g1_more, bls_g1::jacobian, bls_g1::constants, BigUint::from(4u32), codecs, "encoding_uncompressed", bls_uncompressed_subs::<F>(p, codecs_u, ge_enc::<G1Affine>));
         }
         // --- BLS12-381 G2
         {
             type F = BlsG2;
             let codecs: Vec<Codec<F>> = vec![
-                Codec { name: "G2Affine:from_bytes", len: 96, big_endian: true, flag_bits: 3, slot: 48, enc: ge_enc::<G2Affine>, dec: ge_dec::<G2Affine>, dec_unchecked: Some(ge_dec_u::<G2Affine>), subgroup: true, tolerate_panic: false },
-                Codec { name: "G2Projective:from_bytes", len: 96, big_endian: true, flag_bits: 3, slot: 48, enc: |a| ge_enc(&G2Projective::from(*a)), dec: |b| ge_dec::<G2Projective>(b).map(|g| g.to_affine()), dec_unchecked: Some(|b| ge_dec_u::<G2Projective>(b).map(|g| g.to_affine())), subgroup: true, tolerate_panic: false },
+                Codec { name: "G2Affine:from_bytes", len: 96, big_endian: true, flag_bits: 3, slot: 48, enc: ge_enc::<G2Affine>, dec: ge_dec::<G2Affine>, dec_unchecked: Some(ge_dec_u::<G2Affine>), subgroup: true, tolerate_panic: false, exclude: None, lenient_subgroup: false },
+                Codec { name: "G2Projective:from_bytes", len: 96, big_endian: true, flag_bits: 3, slot: 48, enc: |a| ge_enc(&G2Projective::from(*a)), dec: |b| ge_dec::<G2Projective>(b).map(|g| g.to_affine()), dec_unchecked: Some(|b| ge_dec_u::<G2Projective>(b).map(|g| g.to_affine())), subgroup: true, tolerate_panic: false, exclude: None, lenient_subgroup: false },
             ];
             let codecs_u: Vec<Codec<F>> = vec![
-                Codec { name: "G2Affine:from_uncompressed", len: 192, big_endian: true, flag_bits: 3, slot: 48, enc: ue_enc::<G2Affine>, dec: ue_dec::<G2Affine>, dec_unchecked: Some(ue_dec_u::<G2Affine>), subgroup: true, tolerate_panic: false },
-                Codec { name: "G2Affine:from_raw_bytes", len: 192, big_endian: true, flag_bits: 3, slot: 48, enc: so_enc::<G2Affine>, dec: so_dec::<G2Affine>, dec_unchecked: Some(so_dec_u::<G2Affine>), subgroup: true, tolerate_panic: false },
-                Codec { name: "G2Affine:read_raw", len: 192, big_endian: true, flag_bits: 3, slot: 48, enc: so_write::<G2Affine>, dec: so_read::<G2Affine>, dec_unchecked: Some(so_read_u::<G2Affine>), subgroup: true, tolerate_panic: false },
+                Codec { name: "G2Affine:from_uncompressed", len: 192, big_endian: true, flag_bits: 3, slot: 48, enc: ue_enc::<G2Affine>, dec: ue_dec::<G2Affine>, dec_unchecked: Some(ue_dec_u::<G2Affine>), subgroup: true, tolerate_panic: false, exclude: None, lenient_subgroup: false },
+                Codec { name: "G2Affine:from_raw_bytes", len: 192, big_endian: true, flag_bits: 3, slot: 48, enc: so_enc::<G2Affine>, dec: so_dec::<G2Affine>, dec_unchecked: Some(so_dec_u::<G2Affine>), subgroup: true, tolerate_panic: false, exclude: None, lenient_subgroup: false },
+                Codec { name: "G2Affine:read_raw", len: 192, big_endian: true, flag_bits: 3, slot: 48, enc: so_write::<G2Affine>, dec: so_read::<G2Affine>, dec_unchecked: Some(so_read_u::<G2Affine>), subgroup: true, tolerate_panic: false, exclude: None, lenient_subgroup: false },
             ];
             let codecs = codecs.into_iter().chain([
-                Codec { name: "G2Affine:serde", len: 96, big_endian: true, flag_bits: 3, slot: 48, enc: json_enc::<G2Affine>, dec: json_dec::<G2Affine>, dec_unchecked: None, subgroup: true, tolerate_panic: false },
+                Codec { name: "G2Affine:serde", len: 96, big_endian: true, flag_bits: 3, slot: 48, enc: json_enc::<G2Affine>, dec: json_dec::<G2Affine>, dec_unchecked: None, subgroup: true, tolerate_panic: false, exclude: None, lenient_subgroup: false },
             ]).collect();
-            weier_subs::<F>(p, true, 2, bls_g2::extras, bls_g2::scalar_extras, bls_g2_more, bls_g2::jacobian, bls_g2::constants, [BigUint::from(4u32), BigUint::from(4u32)], codecs, "encoding_uncompressed", codecs_u);
+            weier_subs::<F>(p, true, 2, bls_g2::extras, bls_g2::scalar_extras, bls_g2_more, bls_g2::jacobian, bls_g2::constants, [BigUint::from(4u32), BigUint::from(4u32)], codecs, "encoding_uncompressed", bls_uncompressed_subs::<F>(p, codecs_u, ge_enc::<G2Affine>));
         }
         // --- BN254 G1
         {
             type F = BnG1;
             use bn256::{G1Affine as A, G1 as G};
             let codecs: Vec<Codec<F>> = vec![
-                Codec { name: "bn256::G1Affine:from_bytes", len: 32, big_endian: false, flag_bits: 2, slot: 32, enc: ge_enc::<A>, dec: ge_dec::<A>, dec_unchecked: Some(ge_dec_u::<A>), subgroup: false, tolerate_panic: false },
-                Codec { name: "bn256::G1:from_bytes", len: 32, big_endian: false, flag_bits: 2, slot: 32, enc: |a| ge_enc(&G::from(*a)), dec: |b| ge_dec::<G>(b).map(|g| g.to_affine()), dec_unchecked: Some(|b| ge_dec_u::<G>(b).map(|g| g.to_affine())), subgroup: false, tolerate_panic: false },
-                Codec { name: "bn256::G1Affine:from_uncompressed", len: 64, big_endian: false, flag_bits: 0, slot: 32, enc: ue_enc::<A>, dec: ue_dec::<A>, dec_unchecked: Some(ue_dec_u::<A>), subgroup: false, tolerate_panic: false },
-                Codec { name: "bn256::G1Affine:from_raw_bytes", len: 64, big_endian: false, flag_bits: 0, slot: 32, enc: so_enc::<A>, dec: so_dec::<A>, dec_unchecked: Some(so_dec_u::<A>), subgroup: false, tolerate_panic: false },
+                Codec { name: "bn256::G1Affine:from_bytes", len: 32, big_endian: false, flag_bits: 2, slot: 32, enc: ge_enc::<A>, dec: ge_dec::<A>, dec_unchecked: Some(ge_dec_u::<A>), subgroup: false, tolerate_panic: false, exclude: None, lenient_subgroup: false },
+                Codec { name: "bn256::G1:from_bytes", len: 32, big_endian: false, flag_bits: 2, slot: 32, enc: |a| ge_enc(&G::from(*a)), dec: |b| ge_dec::<G>(b).map(|g| g.to_affine()), dec_unchecked: Some(|b| ge_dec_u::<G>(b).map(|g| g.to_affine())), subgroup: false, tolerate_panic: false, exclude: None, lenient_subgroup: false },
+                Codec { name: "bn256::G1Affine:from_uncompressed", len: 64, big_endian: false, flag_bits: 0, slot: 32, enc: ue_enc::<A>, dec: ue_dec::<A>, dec_unchecked: Some(ue_dec_u::<A>), subgroup: false, tolerate_panic: false, exclude: None, lenient_subgroup: false },
+                Codec { name: "bn256::G1Affine:from_raw_bytes", len: 64, big_endian: false, flag_bits: 0, slot: 32, enc: so_enc::<A>, dec: so_dec::<A>, dec_unchecked: Some(so_dec_u::<A>), subgroup: false, tolerate_panic: false, exclude: None, lenient_subgroup: false },
             ];
             let codecs_r: Vec<Codec<F>> = vec![
-                Codec { name: "bn256::G1Affine:read_raw", len: 64, big_endian: false, flag_bits: 0, slot: 32, enc: so_write::<A>, dec: so_read::<A>, dec_unchecked: Some(so_read_u::<A>), subgroup: false, tolerate_panic: false },
+                Codec { name: "bn256::G1Affine:read_raw", len: 64, big_endian: false, flag_bits: 0, slot: 32, enc: so_write::<A>, dec: so_read::<A>, dec_unchecked: Some(so_read_u::<A>), subgroup: false, tolerate_panic: false, exclude: None, lenient_subgroup: false },
             ];
 
             weier_subs::<F>(p, false, 2, bn_g1::extras, bn_g1::scalar_extras, bn_g1_more, bn_g1::jacobian, bn_g1::constants, BigUint::from(3u32), codecs, "encoding_read_raw", codecs_r);
@@ -736,16 +833,16 @@ fn main() {
             type F = BnG2;
             use bn256::{G2Affine as A, G2 as G};
             let codecs: Vec<Codec<F>> = vec![
-                Codec { name: "bn256::G2Affine:from_bytes", len: 64, big_endian: false, flag_bits: 2, slot: 32, enc: ge_enc::<A>, dec: ge_dec::<A>, dec_unchecked: Some(ge_dec_u::<A>), subgroup: false, tolerate_panic: true },
-                Codec { name: "bn256::G2:from_bytes", len: 64, big_endian: false, flag_bits: 2, slot: 32, enc: |a| ge_enc(&G::from(*a)), dec: |b| ge_dec::<G>(b).map(|g| g.to_affine()), dec_unchecked: Some(|b| ge_dec_u::<G>(b).map(|g| g.to_affine())), subgroup: false, tolerate_panic: true },
-                Codec { name: "bn256::G2Affine:from_uncompressed", len: 128, big_endian: false, flag_bits: 0, slot: 32, enc: ue_enc::<A>, dec: ue_dec::<A>, dec_unchecked: Some(ue_dec_u::<A>), subgroup: false, tolerate_panic: true },
-                Codec { name: "bn256::G2Affine:from_raw_bytes", len: 128, big_endian: false, flag_bits: 0, slot: 32, enc: so_enc::<A>, dec: so_dec::<A>, dec_unchecked: Some(so_dec_u::<A>), subgroup: false, tolerate_panic: false },
+                Codec { name: "bn256::G2Affine:from_bytes", len: 64, big_endian: false, flag_bits: 2, slot: 32, enc: ge_enc::<A>, dec: ge_dec::<A>, dec_unchecked: Some(ge_dec_u::<A>), subgroup: false, tolerate_panic: false, exclude: None, lenient_subgroup: false },
+                Codec { name: "bn256::G2:from_bytes", len: 64, big_endian: false, flag_bits: 2, slot: 32, enc: |a| ge_enc(&G::from(*a)), dec: |b| ge_dec::<G>(b).map(|g| g.to_affine()), dec_unchecked: Some(|b| ge_dec_u::<G>(b).map(|g| g.to_affine())), subgroup: false, tolerate_panic: false, exclude: None, lenient_subgroup: false },
+                Codec { name: "bn256::G2Affine:from_uncompressed", len: 128, big_endian: false, flag_bits: 0, slot: 32, enc: ue_enc::<A>, dec: ue_dec::<A>, dec_unchecked: Some(ue_dec_u::<A>), subgroup: false, tolerate_panic: false, exclude: None, lenient_subgroup: false },
+                Codec { name: "bn256::G2Affine:from_raw_bytes", len: 128, big_endian: false, flag_bits: 0, slot: 32, enc: so_enc::<A>, dec: so_dec::<A>, dec_unchecked: Some(so_dec_u::<A>), subgroup: false, tolerate_panic: false, exclude: None, lenient_subgroup: false },
             ];
             let codecs_r: Vec<Codec<F>> = vec![
-                Codec { name: "bn256::G2Affine:read_raw", len: 128, big_endian: false, flag_bits: 0, slot: 32, enc: so_write::<A>, dec: so_read::<A>, dec_unchecked: Some(so_read_u::<A>), subgroup: false, tolerate_panic: false },
+                Codec { name: "bn256::G2Affine:read_raw", len: 128, big_endian: false, flag_bits: 0, slot: 32, enc: so_write::<A>, dec: so_read::<A>, dec_unchecked: Some(so_read_u::<A>), subgroup: false, tolerate_panic: false, exclude: None, lenient_subgroup: false },
             ];
-            // Fq2::from_bytes unwraps the coefficient decoders: a coefficient >= p
-            // panics instead of being rejected; reported here, tolerated elsewhere
+            // regression: Fq2::from_bytes used to unwrap the coefficient decoders, so a
+            // coefficient >= p panicked instead of being rejected
             {
                 let pm = modulus::<bn256::Fq>();
                 let mut items: Vec<(String, Vec<u8>)> = vec![];
